@@ -123,6 +123,14 @@ CLAIMED["C13"] = ("DESIGN.md §4 C13 (partial)",
     "trusted: pysym; sigfig contract stub (active natively too); outside: numeric correctness of rounding, scientific, "
     "base, fraction and custom formats")
 
+CLAIMED["C05"] = ("DESIGN.md §4 C05",
+    "Container arithmetic of the real IWACompressedChunk.to_buffer / _decompress_all / is_iwa_file with the uncompressed "
+    "stream an opaque buffer of SYMBOLIC length (0..131073 quick, 0..262145 thorough) and payload lengths symbolic: every "
+    "frame has marker 0x00, a 3-byte length equal to its payload, at most 65536 data bytes, frames' data concatenates to "
+    "the stream; decoding k<=3 frames of symbolic lengths returns the per-frame data in order.",
+    "trusted: pysym rope model; snappy contract stub (compress bound, uncompress inverse); outside: protobuf/snappy bytes, "
+    "segment layer (ArchiveInfo parsing), fixture archives, unknown-field preservation")
+
 NOT_APPLICABLE = {}
 
 
